@@ -1,5 +1,6 @@
 import GlueVerif.Lemmas.Geometry
 import GlueVerif.Lemmas.GeometryPoly
+import GlueVerif.Lemmas.GeometryEllipse
 import GlueVerif.Lemmas.GeometryOps
 import GlueVerif.Props.C20
 /-!
@@ -60,6 +61,15 @@ theorem ellipse_branches_agree (e : Ellipse) (p : Pt) (hunit : e.c * e.c + e.s *
 example : let e : Ellipse := ⟨1, -1, 4, 2, 5/13, -12/13⟩
     e.c * e.c + e.s * e.s = 1 ∧ branchOf e.c e.s = .general ∧ Impl.ellipseContains e (2, 1) = true ∧
     Impl.ellipseContains e (4, -1) = false := by decide +kernel
+
+/-- **Ellipse, every branch**: also when an un-rotated branch is taken for a tilt of up to `1e-9` rad,
+off the band of half-width `ε ≥ branchTol = 2·|sin δ|·max(rx,ry)²/min(rx,ry)` the coded test is the
+geometric definition (the quadratic form changes by a factor ≤ `1 + 2|sin δ|(max/min)²` under the
+ignored rotation). -/
+theorem ellipse_branches_agree_full (e : Ellipse) (p : Pt) (ε : Rat) (hunit : e.c * e.c + e.s * e.s = 1)
+    (hrx : 0 < e.rx) (hry : 0 < e.ry) (hε : 0 ≤ ε) (htol : e.branchTol ≤ ε) (hfar : e.near p ε = false) :
+    Impl.ellipseContains e p = Spec.ellipseContains e p :=
+  ellipse_branches_agree_tilt e p ε hunit hrx hry hε htol hfar
 
 /-- The square `bounds()` used as prefilter contains the whole rotated ellipse. -/
 theorem ellipse_bounds_contain (e : Ellipse) (p : Pt) (hunit : e.c * e.c + e.s * e.s = 1)
